@@ -15,16 +15,16 @@ ID = "C39"
 LEVEL = "model_checking"
 RULE = (
     "S: all runs with 1 stream ('primary' or 'baseline', 0-3 events) or 2 streams (0-3 events each, EVERY interleaving), "
-    "descriptors eager/lazy (146 run shapes) x 3 dispatcher classes (LiveDispatcher, re-label per original stream, re-label + "
+    "descriptors eager/lazy, plus 13 shapes with a second descriptor issued for a stream in mid-run (159 run shapes) x 3 dispatcher classes (LiveDispatcher, re-label per original stream, re-label + "
     "derived key); single runs and two consecutive runs through one instance (quick: first run from the 14 shapes with <= 1 "
-    "event per stream; thorough: all 146 x 146); oracle: DOCSTREAM on the re-emitted list, per re-emitted stream seq_nums "
+    "event per stream; thorough: all 159 x 159); oracle: DOCSTREAM on the re-emitted list, per re-emitted stream seq_nums "
     "== 1..N in emission order, stop.num_events[stream] == N (absent/0 allowed only for N == 0, no counts for streams without "
     "events); non-trivial = some re-emitted run with >= 2 events in one stream or events in 2 streams"
 )
 ASSUMPTIONS = [
     "the stream of a re-emitted event is the `name` of the re-emitted descriptor it points to (event-model semantics)",
     "wall-clock `time` fields and random uids are not part of any verdict or digest",
-    "a second descriptor for the same stream inside one run (configuration update) is not generated",
+    "a second descriptor for the same stream inside one run (configuration update) is generated for 13 shapes only (single stream: after every k of n <= 3 events; four two-stream shapes)",
 ]
 NAMES = ("primary", "baseline")
 CLASSES = ("pass", "relabel", "transform")
@@ -45,6 +45,12 @@ def run_shapes():
     for nm in NAMES:
         for n in range(4):
             shapes.append(((nm,), (0,) * n, True))
+    # a second descriptor for the same stream in mid-run (what `configure` causes): entry 10+i = "re-describe stream i"
+    for n in range(1, 4):
+        for k in range(n + 1):
+            shapes.append((("primary",), (0,) * k + (10,) + (0,) * (n - k), True))
+    for order in ((0, 1, 10, 0, 1), (0, 10, 1, 0), (1, 0, 11, 1, 0), (0, 1, 10, 11, 0, 1)):
+        shapes.append((NAMES, order, True))
     for a in range(4):
         for b in range(4):
             for pos in itertools.combinations(range(a + b), a):
@@ -67,6 +73,9 @@ def doc_plan(names, order, eager):
             plan.append(("d", i))
             declared.add(i)
     for i in order:
+        if i >= 10:
+            plan.append(("r", i - 10))
+            continue
         if i not in declared:
             plan.append(("d", i))
             declared.add(i)
@@ -83,14 +92,16 @@ def make_run(tag, names, order, eager):
     docs = [("start", start)]
     keys = {0: "x", 1: "y"}
     seq = {}
+    cur = {}
     for kind, i in doc_plan(names, order, eager):
-        if kind == "d":
+        if kind in ("d", "r"):
             k = keys[i]
+            cur[i] = f"{tag}-desc{i}" + ("" if kind == "d" else f"r{len(docs)}")
             docs.append(
                 (
                     "descriptor",
                     {
-                        "uid": f"{tag}-desc{i}",
+                        "uid": cur[i],
                         "run_start": start["uid"],
                         "time": 1.5,
                         "name": names[i],
@@ -109,7 +120,7 @@ def make_run(tag, names, order, eager):
                     "event",
                     {
                         "uid": f"{tag}-ev{i}-{seq[i]}",
-                        "descriptor": f"{tag}-desc{i}",
+                        "descriptor": cur[i],
                         "time": 2.0 + seq[i],
                         "seq_num": seq[i],
                         "data": {k: float(10 * i + seq[i])},
